@@ -578,7 +578,7 @@ class Plugin:
     ID = "C13"
     RUN_MODULE = "C13.Run"
     GEN = ["Server", "Ssdp", "Types", "DateMatchers"]
-    DEPENDS = ["C03", "C08", "C16"]
+    DEPENDS = ["C03", "C08", "C16", "C01"]
     CLAUSES = {1: "response_table", 2: "once_within_mx", 3: "adverts_match", 4: "usn_owner", 5: "self_accepted",
                6: "no_raise"}
     SHARD = 40
